@@ -1,0 +1,19 @@
+//go:build verif
+
+package obfs3
+
+import "net"
+
+// VerifBuffered reports how many received-but-unconsumed bytes an obfs3
+// connection currently holds.  Verification hook (build tag verif); not part
+// of the package API.
+func VerifBuffered(conn net.Conn) (buffered int, ok bool) {
+	c, ok := conn.(*obfs3Conn)
+	if !ok {
+		return 0, false
+	}
+	if c.rxBuf == nil {
+		return 0, true
+	}
+	return c.rxBuf.Len(), true
+}
